@@ -89,7 +89,8 @@ def run_job(rec: core.Recorder, job: dict, seed: int) -> None:
                            noread_rate=30, continue_on_failure=(True, True, False), bust=True)
     from hypothesis import strategies as st
     # the progress bars and the task monitor are part of the run loop (default: shown): a third of the cases runs with them on
-    strat = st.builds(lambda sp, disp: {**sp, 'lab': {**sp['lab'], 'displays': disp == 0}}, strat, st.integers(0, 2))
+    from pbt import dagrun
+    strat = st.builds(lambda sp, disp, top: {**sp, 'lab': {**sp['lab'], 'displays': disp == 0, 'top': top}}, strat, st.integers(0, 2), dagrun.top_strategy())
     core.run_hypothesis(rec, eng, strat, check, max_examples=job['n'], seed=seed,
                         shrink=(eng == 'controlled' or rec.tier == 'thorough'))
 
